@@ -36,8 +36,28 @@ JOBS += [
     dict(name='lemma_c10_order', lemma='c10_order.c', entry='lemma_c10_order', enforce=[], replace=ALLV, covers=['COVER-chain', 'COVER-equal'], expect_kinds=['assertion'], timeout=300),
     dict(name='lemma_c10_gate', lemma='c10_order.c', entry='lemma_c10_gate', enforce=[], replace=ALLV, covers=['COVER-writable', 'COVER-readable-only', 'COVER-unreadable'], expect_kinds=['assertion'], timeout=300),
 ]
+FH = 'backend/hdf5/FileHDF5.cpp'; FHH = 'backend/hdf5/FileHDF5.hpp'
+FHC = dict(cls='FileHDF5', cls_file=FHH, classes=['FormatVersion', 'FileHDF5', 'H5Group', 'nstring'],
+           member_types={'root': 'H5Group', 'file_format_version': 'FormatVersion'}, globals={'my_version': 'FormatVersion'},
+           overloads={'H5Group_getAttr': {'by': 'last_arg_type', 'nstring': 'H5Group_getAttr_string', 'vec_int': 'H5Group_getAttr_vec_int'}},
+           member_calls={'checkHeader': 'FileHDF5_checkHeader', 'createHeader': 'FileHDF5_createHeader'})
+UNITS.update({
+    'FormatVersion_ctor_vec': m(r'explicit\s+FormatVersion\s*\((?=\s*const\s+std::vector<int>)', ctor=True),
+    'FileHDF5_checkHeader': dict(FHC, file=FH, locator=r'bool\s+FileHDF5::checkHeader\s*\('),
+    'FileHDF5_ctor_gate': dict(FHC, file=FH, locator=r'FileHDF5::FileHDF5\s*\(',
+                               region=dict(start=r'if\s*\(\s*is_create\s*\)\s*\{\s*createHeader', end=r'checkHeader\s*\([^;]*;\s*\}',
+                                           params=[('bool', 'is_create'), ('FileMode', 'mode'), ('OpenFlags', 'flags')])),
+})
+HDR_EXTRA = 'FormatVersion my_version; int ghost_headers_created;\nFormatVersion mk_FormatVersion_1(const vec_int *v) { return mk_FormatVersion_1_impl(v); }\n'
+JOBS += [
+    job('FormatVersion_ctor_vec'),
+    dict(name='FileHDF5_checkHeader', bodies=['FormatVersion_ctor_vec', 'FileHDF5_checkHeader'], extra_c=HDR_EXTRA, enforce=['FileHDF5_checkHeader'],
+         replace=ALLV, covers=['COVER-read-ok-newer-patch', 'COVER-write-refused', 'COVER-forced'], expect_kinds=['postcondition'], timeout=600),
+    dict(name='FileHDF5_ctor_gate', bodies=['FileHDF5_ctor_gate'], extra_c='FormatVersion my_version; int ghost_headers_created;\n', enforce=['FileHDF5_ctor_gate'],
+         replace=['FileHDF5_checkHeader', 'FileHDF5_createHeader'], covers=['COVER-forced-open', 'COVER-refused'], expect_kinds=['postcondition', 'precondition'], timeout=600),
+]
 SPEC = dict(
-    contracts=['c10_version.h'], stubs=[], units=UNITS, jobs=JOBS,
+    contracts=['c10_version.h', 'c10_header.h'], stubs=['h5header.h'], include_order=['c10_version.h', 'h5header.h', 'c10_header.h'], units=UNITS, jobs=JOBS,
     trusted_base=['CBMC 6.11.0 (C front end, --dfcc contract instrumentation, SAT back end)',
                   'vlib/cxx2c.py idiom map (member functions -> C functions with explicit self, operators -> named functions)'],
     assumptions=['int is 32-bit two\'s complement (bit-precise)'],
